@@ -158,9 +158,21 @@ def _run(cs, tier, run_index, M):
     return res
 
 
+MEDIUM_SHAPES = [(2, 9), (3, 6), (5, 4), (7, 3), (9, 3), (31, 2), (2, 8), (3, 5), (6, 3)]
+
+
 def draw_small_game(st):
     """A game of the sequential branch: 2..3 answers, 2..3 questions per player."""
     a_out, b_out, a_in, b_in = st.int_range(2, 3), st.int_range(2, 3), st.int_range(2, 3), st.int_range(2, 3)
+    if st.draw(4) == 0:
+        # the upper end of the sequential branch: a few hundred strategies of the enumerated player (the pool
+        # takes over above 1000), where a blocked or batched enumeration would need more than one block
+        eo, ei = MEDIUM_SHAPES[st.draw(len(MEDIUM_SHAPES))]
+        oo, oi = [(o, i) for (o, i) in [(4, 5), (6, 4), (2, 10), (3, 7), (11, 3), (32, 2)] if o**i > eo**ei][st.draw(3)]
+        if st.draw(2):
+            a_out, a_in, b_out, b_in = eo, ei, oo, oi
+        else:
+            a_out, a_in, b_out, b_in = oo, oi, eo, ei
     rng = st.nprng()
     kind = st.draw(4)
     shape = (a_out, b_out, a_in, b_in)
